@@ -96,7 +96,7 @@ def run_jobs(tier, seed, v, cov, claim, jobs=None):
     first = selftest
     for (s, n, k), out, st, tv in results:
         if st.get("error"):
-            if "panic:" in st["error"] or "fatal error:" in st["error"]:
+            if vlib.code_panic(st["error"]):
                 owner = claim("crash", st["error"])
                 rp = vlib.save_replay(owner or "X-MAINT", "maint-crash-%s" % s, {"stderr.txt": st["error"]},
                                       dict(maint=True, seed=s, n=n, k=k, what="process died while TableMaintainer ran"))
